@@ -159,6 +159,7 @@ def list_theorems(path):
 SEEDS_OUT_OF_SCOPE = {
     "C02-r2-2": "changes `Triangle::is_collapsed` (thick strokes, C02's topic), which is not translated",
     "C07-3": "changes `Dimensions::bounding_box` of `Polyline` (C07's topic), which is not translated",
+    "C19-3": "changes the `from_fn` closure of `ScanlineIntersections::edge_intersections` (thick strokes), which is not translated",
 }
 
 
